@@ -35,21 +35,7 @@ def sig_of(res):
     return [[f.filename, hashlib.sha256(f.contents.encode('utf-8')).hexdigest(), f.hash] for f in res.files]
 
 
-def sibling_of(rng, base):
-    """a copy of a generated case whose declarations keep their names but change their meaning"""
-    c = json.loads(json.dumps({k: v for k, v in base.items() if k != '_info'}))
-    ctypes = ['int', 'long', '::vt::Ext<1>', '::vt::Ext<2>', '::vt::Ext<3>', 'std::chrono::milliseconds']
-
-    def walk(elems):
-        for e in elems:
-            if e['k'] == 'namespace':
-                walk(e['elems'])
-            elif e['k'] == 'extern':
-                e['value'] = rng.choice([t for t in ctypes if t != e['value']])
-    walk(c['src'])
-    c['ast'] = M.enc_root(c['src'])
-    c['_info'] = base['_info']
-    return c
+sibling_of = G.sibling_of
 
 
 class C12(Prop):
@@ -118,6 +104,8 @@ class C12(Prop):
         model_out = dict(zip(keys, evaluate(self, [uniq[k] for k in keys])))
         for models, steps in histories:
             builder = Builder()          # one Builder object for the whole history
+            live = {}                    # ... and one Configuration object, edited in place from build to build
+            in_place = rng.random() < 0.6
             parsed = [DznJsonAst(json_contents=json.dumps(m[0]['ast'])).process() for m in models]
             for mi, case in steps:
                 evaluations += 1
@@ -139,6 +127,8 @@ class C12(Prop):
                 except Exception as e:  # noqa - configuration objects that cannot even be constructed
                     got = {'err': err_tag(e)}
                     conf = None
+                if conf is not None and in_place:
+                    conf = G.live_configuration(live, conf)
                 if conf is not None:
                     before = canon([deep_dump(fc), deep_dump({k: v for k, v in vars(conf).items() if k != 'ast_fc'})])
                     try:
